@@ -731,6 +731,15 @@ class Interp:
             return self.eval_const(val if re.search(r'_[ui]\d|_[ui]size|f64$|^true$|^false$', val) else val, st)
         if len({v_ for _k, v_ in hits}) == 1 and hits:
             return self.eval_const(hits[0][1][1], st)
+        # crate constant with a body (`const NAME: TY = { .. }`, parsed as the nullary function `const NAME`)
+        bodies = [n for n in self.funcs if n.startswith('const ') and n.split('::')[-1] == key]
+        if len(bodies) > 1 and len(t.split('::')) >= 2:
+            owner = t.split('::')[-2]
+            bodies = [n for n in bodies if self.funcs[n].ret_ty.split('::')[-1].split('<')[0] == owner] or bodies
+        if len(bodies) == 1:
+            outs = self.exec_fn(st, bodies[0], [], {})
+            if len(outs) == 1:
+                return outs[0][1]
         raise Unsupported('const %s' % t)
 
     consts = {}
